@@ -461,7 +461,7 @@ def _own_correspondence(ctx, own):
             ("fin", "E1c-links:finalize", cc.finalize_check, co.finalize_witness)]
     checks, origin = [], []
     for key, name, check, wit in fams:
-        cases = [c for c in own[key] if co.model_ok(c["before"])]
+        cases = [c for c in own[key] if co.model_ok(c["before"]) and co.honest_stat(c)]
         ctx.count(f"{name.split(':')[0]}_cases", len(cases))
         ctx.count(f"{name.split(':')[0]}_outside_model_assumptions", len(own[key]) - len(cases))
         for c in cases:
